@@ -49,6 +49,7 @@ class Run:
         self.fixture_results = []
         self.fixture_mode = False
         self._inst_seen = set()
+        self.shortfalls = []
 
     # ---------------------------------------------------------------- programs
     def prog(self, mode='rel', cfg=None):
@@ -103,7 +104,7 @@ class Run:
         if self.fixture_mode:
             return
         if self.instances[rule] < n:
-            raise AnalysisBroken('rule %s matched %d instances, fewer than the %d confirmed by hand' % (rule, self.instances[rule], n))
+            self.shortfalls.append('rule %s matched %d instances, fewer than the %d confirmed by hand' % (rule, self.instances[rule], n))
 
     def violation(self, rule, func, loc, inst, msg, path=None, extra=None):
         """inst: stable instance key without line numbers"""
@@ -176,5 +177,9 @@ class Run:
                 print('  %s %s %s: %s [%s]' % (v['rule'], v['function'], v['loc'], v['msg'], v['inst']))
                 print('VIOLATION property=%s replay=%s' % (self.prop, p))
             return 1
+        if self.shortfalls:
+            for sf in self.shortfalls:
+                print('ANALYSIS-BROKEN property=%s: %s' % (self.prop, sf))
+            return 2
         print('OK %s: %d obligations over %d instances in %.1fs' % (self.prop, sum(self.obligations.values()), total_inst, wall))
         return 0
